@@ -213,16 +213,49 @@ def lean_run(src_text, timeout=1200):
     return rc, out
 
 
-def run_lines(exe, lines, timeout=3600, env=None):
-    """feed lines to an executable; returns (returncode, list of answer lines, stderr text)"""
+def _run_lines_one(exe, lines, timeout, e):
     data = ("\n".join(lines) + "\n").encode()
-    e = dict(os.environ)
-    e["ASAN_OPTIONS"] = "detect_leaks=0:abort_on_error=0"
-    e["UBSAN_OPTIONS"] = "print_stacktrace=1"
-    if env:
-        e.update(env)
     p = subprocess.run([exe], input=data, stdout=subprocess.PIPE, stderr=subprocess.PIPE, timeout=timeout, env=e)
     out = p.stdout.decode("utf-8", "replace").split("\n")
     if out and out[-1] == "":
         out.pop()
     return p.returncode, out, p.stderr.decode("utf-8", "replace")
+
+
+def run_lines(exe, lines, timeout=3600, env=None):
+    """feed lines to an executable; returns (returncode, list of answer lines, stderr text).
+    Large batches are split into contiguous chunks run concurrently (cases are independent: one line in, one line
+    out); answers are concatenated in order.  When a chunk dies, the answers up to its first unanswered line are
+    returned, so the caller still finds the failing input at index len(answers)."""
+    e = dict(os.environ)
+    e["ASAN_OPTIONS"] = "detect_leaks=0:abort_on_error=0"
+    e["UBSAN_OPTIONS"] = "print_stacktrace=1"
+    if env:
+        e.update(env)
+    if not lines:
+        return 0, [], ""
+    total = sum(len(l) for l in lines)
+    if len(lines) < 400 or total < 200000:
+        return _run_lines_one(exe, lines, timeout, e)
+    from concurrent.futures import ThreadPoolExecutor
+    nchunks = min(NPROC, max(2, len(lines) // 200))
+    # balance by text size, keep order
+    target = total / nchunks
+    chunks, cur, acc = [], [], 0
+    for l in lines:
+        cur.append(l)
+        acc += len(l)
+        if acc >= target and len(chunks) < nchunks - 1:
+            chunks.append(cur)
+            cur, acc = [], 0
+    if cur:
+        chunks.append(cur)
+    with ThreadPoolExecutor(max_workers=len(chunks)) as ex:
+        results = list(ex.map(lambda c: _run_lines_one(exe, c, timeout, e), chunks))
+    out, err_all = [], ""
+    for (rc, o, err), c in zip(results, chunks):
+        out.extend(o)
+        if rc != 0 or len(o) != len(c):
+            return (rc if rc != 0 else 1), out, err
+        err_all += err[-2000:]
+    return 0, out, err_all
